@@ -4,6 +4,7 @@ import (
 	"go/constant"
 	"go/token"
 	"go/types"
+	"strings"
 
 	"golang.org/x/tools/go/ssa"
 )
@@ -854,4 +855,19 @@ func c23OriginCalls(v ssa.Value, match func(*ssa.Call) bool, other func(ssa.Valu
 		ok = false
 	})
 	return ok && n > 0
+}
+
+// c23Guarded runs one family; an anchor it loses is recorded instead of aborting
+// the whole property.
+func c23Guarded(lost *[]string, f func()) {
+	defer func() {
+		if r := recover(); r != nil {
+			al, ok := r.(anchorLost)
+			if !ok {
+				panic(r)
+			}
+			*lost = append(*lost, strings.TrimPrefix(al.msg, "ANCHOR-LOST: "))
+		}
+	}()
+	f()
 }
